@@ -6,7 +6,7 @@ function of the outcome of the exclusive create of `_lock`
 (trace of the modelled effects in program order, verdict of `Lock()`:
 `none` = nil, `some "PipestanceLockedError"`).  The tie theorems relate it to the
 lock protocol LTS of `Martian.LockLTS` (`step`, actions `acquire` / `register` /
-`acquireErr`) and to the regenerated order fact `Gen.c15RegisterFirst`.
+`acquireFail` / `acquireErr` through `createErr`) and to the regenerated facts `Gen.c15RegisterFirst`.
 -/
 import Martian.EquivLockLTS
 import Gen.Facts
@@ -19,12 +19,19 @@ theorem tr_Lock_table :
     Gen.tr_Lock true false = (["loadCache", "create", "close", "RegisterSignalHandler", "WriteTime"], none) ∧
     Gen.tr_Lock true true = (["loadCache", "create", "close", "RegisterSignalHandler", "WriteTime"], none) ∧
     Gen.tr_Lock false true = (["loadCache", "create"], some "PipestanceLockedError") ∧
-    Gen.tr_Lock false false = (["loadCache", "create", "RegisterSignalHandler", "WriteTime"], none) := by
+    Gen.tr_Lock false false = (["loadCache", "create"], some "error of create") := by
   decide
+
+/-- the LTS parameter "a create error other than 'exists' is IGNORED" (the old code
+logged it and went on: `acquireErr`; since x-c19's repair it is returned:
+`acquireFail`), read off the translated code: is `Lock()`'s result nil then? -/
+def createErrIgnoredOf (tr : Bool → Bool → List String × Option String) : Bool :=
+  (tr false false).2.isNone
 
 /-- the LTS actions one call of `Lock()` by process `p` performs -/
 def lockActs (p : Nat) (created exists_ : Bool) : List Act :=
-  if created then [.acquire p, .register p] else if exists_ then [.acquire p] else [.acquireErr p]
+  if created then [.acquire p, .register p] else if exists_ then [.acquire p]
+  else [createErr (createErrIgnoredOf Gen.tr_Lock) p]
 
 /-- run the actions, collecting the verdict of the first one (the create) -/
 def runActs (regFirst : Bool) (s : St) : List Act → St × Bool
@@ -56,11 +63,12 @@ theorem tr_Lock_refines_lts (s : St) (p : Nat) (created exists_ : Bool)
     r.1.lockFile = (s.lockFile || created) ∧
     r.2 = (Gen.tr_Lock created exists_).2.isNone := by
   have hrf : regFirstOf Gen.tr_Lock = false := by decide
+  have hci : createErrIgnoredOf Gen.tr_Lock = false := by decide
   have hh' : ¬ p ∈ s.holders := by simpa using hh
   have hr' : ¬ p ∈ s.registered := by simpa using hr
   cases created <;> cases exists_
-  · -- any other error: acquireErr
-    simp [lockActs, runActs, step, hrf, Gen.tr_Lock, hh']
+  · -- any other error: returned, nothing happens (acquireFail)
+    simp [lockActs, createErr, hci, runActs, step, Gen.tr_Lock, hh', hr']
   · -- refused
     have hl := he rfl rfl
     simp [lockActs, runActs, step, hrf, Gen.tr_Lock, hh', hr', hl]
@@ -68,6 +76,16 @@ theorem tr_Lock_refines_lts (s : St) (p : Nat) (created exists_ : Bool)
     simp [lockActs, runActs, step, hrf, Gen.tr_Lock, hl]
   · have hl := hc rfl
     simp [lockActs, runActs, step, hrf, Gen.tr_Lock, hl]
+
+/-- the regenerated fact of C15 "a create error other than 'exists' is ignored"
+(`Gen.c15LockCreateErrorIgnored`, false since the repair) agrees with the translated
+code, and such a call is inert: it neither registers the handler nor writes the
+lock file (the later, non-exclusive `WriteTime` could take over a lock another
+instance created in the meantime) -/
+theorem tr_Lock_create_error_is_returned :
+    Gen.c15LockCreateErrorIgnored = createErrIgnoredOf Gen.tr_Lock ∧
+    Gen.tr_Lock false false = (["loadCache", "create"], some "error of create") := by
+  decide
 
 /-- the textual order fact of C15 (`Gen.c15RegisterFirst`: "RegisterSignalHandler is
 called before the lock is owned") agrees with the translated code: an instance
